@@ -153,7 +153,9 @@ func FindPathFromModel(path string, rwPaths ReadWritePathMap, exact bool) (bool,
 		// Find a short path
 		if exact && pathNoIndices == searchPathNoIndices {
 			return false, &modelElem, nil
-		} else if !exact && strings.HasPrefix(pathNoIndices, searchPathNoIndices) {
+		} else if !exact && strings.HasPrefix(pathNoIndices, searchPathNoIndices) &&
+			(len(pathNoIndices) == len(searchPathNoIndices) || pathNoIndices[len(searchPathNoIndices)] == '/') {
+			// the searched path is a node of the model: an ancestor of (or equal to) a RW path at a path element boundary
 			return false, &modelElem, nil // returns the first thing it finds that matches the prefix
 		}
 	}
